@@ -255,6 +255,11 @@ func (d *Dialer) connectTLS(ctx context.Context, conn net.Conn, config *tls.Conf
 		err = ctx.Err()
 
 	case err = <-errch:
+		if err != nil {
+			// The dial fails: nobody will ever use (or close) the connection
+			// that was opened for it.
+			conn.Close()
+		}
 	}
 
 	return
